@@ -77,7 +77,7 @@ theorem parseOp_ok (n : Nat) (ot nm : List Nat) (ds : List Dir) (ss : List Sel) 
     have hDirs : ∀ c0, ∃ cd, parseDirectives cfg n false (PSat c0 (feed tds (feed tss r))) =
         .ok ((if ds = [] then none else some (ds.map Exec.dirAst)), PSat cd (feed tss r)) := by
       intro c0
-      exact parseDirectives_raw cfg hm ds hds n tds _ c0 (by omega) hkds hne_ds hR3 (by rw [hk3]; decide)
+      exact parseDirectives_raw cfg hm false ds hds n tds _ c0 (by omega) hkds hne_ds hR3 (by rw [hk3]; decide)
         (by rw [hk3]; decide)
     have hdirsAst : optListO (if ds = [] then none else some (ds.map Exec.dirAst)) = Exec.dirsAst ds := by
       cases ds <;> simp [optListO, Exec.dirsAst, optL]
@@ -186,7 +186,7 @@ theorem parseFrag_ok (n : Nat) (nm tc : List Nat) (ds : List Dir) (ss : List Sel
   obtain ⟨c3, h3⟩ := expectKeyword_ok cfg hm "on" tOn (.cons tT (feed tds (feed tss r))) c2 hOnk
     ((valueIs_iff hOnv _).mpr rfl) (by simp [Stream.Ready, hTne])
   obtain ⟨c4, h4⟩ := parseName_ok cfg hm tT tc (feed tds (feed tss r)) c3 hTk hTv hR2
-  obtain ⟨cd, hD⟩ := parseDirectives_raw cfg hm ds hds n tds (feed tss r) c4 (by omega) hkds hne_ds hR3
+  obtain ⟨cd, hD⟩ := parseDirectives_raw cfg hm false ds hds n tds (feed tss r) c4 (by omega) hkds hne_ds hR3
     (by rw [hk3]; decide) (by rw [hk3]; decide)
   obtain ⟨cs, hS⟩ := parseSS cfg hm ss hssne hss n tss r cd (by omega) hkss hne_ss hr
   have hdirsAst : optListO (if ds = [] then none else some (ds.map Exec.dirAst)) = Exec.dirsAst ds := by
